@@ -972,7 +972,7 @@ fn coherence(root: &Path, id: &str, a: &Abs) -> Coherence {
 ///     Full: TruncLines | Rollback (alive, or across a restart with no append since)
 /// S4  derived_sidecar_wellformed_not_projection: mr/comp parse, != projection /
 ///     that file: Delete | TruncLines | Rollback (+ an append re-created / extended it)
-/// S4c derived_sidecar_zero_length_accepted: mr/comp exists with 0 lines / that file: TruncLines
+/// (S4c derived_sidecar_zero_length_accepted: fixed in /repo, no class any more)
 /// S4b derived_index_wellformed_not_projection: comp.idx / msgord parse (msgord: last record = last message), != projection /
 ///     that file: Delete | TruncLines | Rollback, or the sidecar it indexes: any
 /// S3c compile_window_read_accepts_noncontiguous_full_sidecar: full: every line good, seqs not contiguous /
@@ -1021,9 +1021,8 @@ fn classify_violation(c: &Coherence, fast: &Ans, _truth: &Ans, q: &Q, prov: &Pro
     if reads_derived && ((c.mr == FileState::WellFormedDiffers && any(&[Target::Mr], &LOSSY)) || (c.comp == FileState::WellFormedDiffers && any(&[Target::Comp], &LOSSY))) {
         return "derived_sidecar_wellformed_not_projection".into();
     }
-    if reads_derived && ((c.mr == FileState::Empty && any(&[Target::Mr], &["TruncLines"])) || (c.comp == FileState::Empty && any(&[Target::Comp], &["TruncLines"]))) {
-        return "derived_sidecar_zero_length_accepted".into();
-    }
+    // (S4c, fixed in /repo e409d9d: a zero-length mr / comp sidecar is read as a lost one, so that state is no class
+    // of its own any more; a wrong answer that a zero-length file alone explains is a new violation)
     // the ordinal index is cross-checked only through its last record; an index whose last record is NOT the last
     // message is detected by the readers, so a disagreement in that state would be a new defect, not this class
     if reads_derived
@@ -1684,6 +1683,16 @@ fn corpus_cases() -> Vec<Case> {
     v.push(Case {
         ops: vec![Op::Msg { size: 5 }, Op::Msg { size: 5 }, Op::Checkpoint { msg: 1 }, Op::Fault { target: Target::Comp, kind: FaultKind::TruncLines(1000) }],
         queries: vec![Q::CutPoints { stride: 2, limit: 4 }, Q::CompactionStatus { stride: 2 }],
+        long: false,
+    });
+    // C04-F3 (fixed): ordinal index that lost a record in the middle and its newest records: the count is rejected, the
+    // look-ups must not use it either
+    v.push(Case {
+        ops: vec![
+            Op::Msg { size: 5 }, Op::Msg { size: 5 }, Op::Fault { target: Target::Ord, kind: FaultKind::TruncLines(1) }, Op::Msg { size: 5 }, Op::Msg { size: 5 },
+            Op::Msg { size: 5 }, Op::Cursor { key: 100 }, Op::Selection, Op::SideFx, Op::Fault { target: Target::Ord, kind: FaultKind::Rollback(4) },
+        ],
+        queries: vec![Q::CutPoints { stride: 3, limit: 32 }, Q::CompactionStatus { stride: 3 }, Q::CutPoints { stride: 1, limit: 32 }],
         long: false,
     });
     // inflight job, full sidecar deleted while the derived caches stay
